@@ -553,8 +553,12 @@ class Cpp:
     """files: {normalised absolute path: text}; chain: ordered search directories (-I..., system, -idirafter).
     Macros are object-like with at most one replacement token (enough for guards, -D/-U and #include NAME)."""
 
-    def __init__(self, files, chain, macros=None, maxdepth=40, vfs=None):
+    def __init__(self, files, chain, macros=None, maxdepth=40, vfs=None, once_by_spelling=False):
         self.files = files
+        # #pragma once identifies a file by (False) what the name resolves to | (True) the path string as put together
+        # from the directory searched and the spelling in the directive, without any simplification.  Both are
+        # conforming (implementation-defined); they differ only for one file reached through two spellings.
+        self.once_by_spelling = once_by_spelling
         self.vfs = vfs              # None: `files` is keyed by normalised absolute paths and there are no links
         self.chain = list(chain)
         self.macros = dict(macros or {})
@@ -642,10 +646,12 @@ class Cpp:
         self.process(os.path.normpath(path), None, primary=True)
         return self.out
 
-    def process(self, path, idx, primary=False, ldir=None):
+    def process(self, path, idx, primary=False, ldir=None, okey=None):
         """path: identity of the file; ldir: the directory it was found in as named (differs from the directory of
-        `path` only when the name's last component is a symbolic link to a file elsewhere)"""
-        if path in self.once:
+        `path` only when the name's last component is a symbolic link to a file elsewhere); okey: the path string as
+        spelled (directory searched + "/" + name in the directive)"""
+        okey = okey if (self.once_by_spelling and okey is not None) else path
+        if okey in self.once:
             return
         if ldir is None:
             ldir = os.path.dirname(path)
@@ -726,8 +732,10 @@ class Cpp:
                 stack.pop()
             elif not act:
                 continue
-            elif d == "" or d == "line":
-                continue            # null directive (6.10.7); #line changes no token
+            elif d == "" or d == "line" or d.isdigit():
+                # null directive (6.10.7); #line / the GNU line marker `# 7 "file"` change the PRESUMED line number and
+                # file name only (6.10.4): no token, and never the file a later #include selects
+                continue
             elif d == "define" and re.match(r"\s*#\s*define\s+\w+\(\w+\)", line):
                 self.macros.pop(a[0], None)
                 self.fmacros[a[0]] = (a[2], a[4:])
@@ -739,7 +747,7 @@ class Cpp:
                 self.fmacros.pop(a[0], None)
             elif d == "pragma":
                 if a and a[0] == "once":
-                    self.once.add(path)
+                    self.once.add(okey)
             elif d in ("include", "include_next"):
                 if a and a[0] in self.macros:
                     a = lex(self.macros[a[0]])
@@ -757,7 +765,8 @@ class Cpp:
                 self.pending = (d, quote, name, path)       # the lookup in progress (kept when it raises Reject)
                 p, i, pdir = self.resolve(name, quote, ldir, idx, nxt)
                 self.events.append((d, quote, name, p, i, len(self.out), path))
-                self.process(p, i, ldir=pdir)
+                spelled = name if name.startswith("/") else (ldir if i is None else self.chain[i]) + "/" + name
+                self.process(p, i, ldir=pdir, okey=spelled)
             else:
                 raise Undef("directive " + d)
         if stack:
